@@ -622,10 +622,11 @@ def sub_faults(rec, seed, shard, nshards, depth="quick", max_sigs=12, fork_error
 
 
 def replay_fault(case):
-    """Re-execute one saved (case, step, fault) — or the whole enumeration of the case when no step is given."""
+    """Re-execute one saved (case, step, fault) — or the whole enumeration of the case when no step is given.
+    The step is addressed by index; when the step layout changed since the file was saved (other operation at that
+    index) every step of the saved operation kind is tried instead."""
     case = dict(case)
-    step, fname = case.pop("step", None), case.pop("fault", None)
-    case.pop("step_op", None)
+    step, fname, op = case.pop("step", None), case.pop("fault", None), case.pop("step_op", None)
     if fname and fname.startswith("rlimit"):
         return _rlimit_one(case, int(fname.split(":")[1]), None)
     if step is None or fname in (None, "none"):
@@ -633,9 +634,14 @@ def replay_fault(case):
     env = prepare(case)
     try:
         base = baseline(env)
-        if step >= len(base.steps):
-            return
-        inject(env, base, int(step), fname, None)
+        ops = [s[0] for s in base.steps]
+        if 0 <= int(step) < len(ops) and (op is None or ops[int(step)] == op):
+            idxs = [int(step)]
+        else:
+            idxs = [k for k, o in enumerate(ops) if o == op]
+        for k in idxs:
+            if fname in F.fault_kinds(base.steps[k][2]):
+                inject(env, base, k, fname, None)
     finally:
         env.close()
 
